@@ -19,7 +19,8 @@ class Mailbox(Parseable[str]):
 
     def __init__(self, mailbox: str) -> None:
         super().__init__()
-        if mailbox.upper() == 'INBOX':
+        if mailbox.isascii() and mailbox.upper() == 'INBOX':
+            # case-insensitive in ASCII only, upper() also maps e.g. U+0131
             self.mailbox = 'INBOX'
             self._raw: bytes | None = b'INBOX'
         else:
